@@ -63,6 +63,7 @@ func unsat(a *flow.Alt, extra ...*flow.Term) bool {
 	for _, x := range extra {
 		cs = append(cs, []literal{litOf(x)})
 	}
+	cs = append(cs, orderLemmas(a, extra)...)
 	val := map[string]bool{}
 	for changed := true; changed; {
 		changed = false
@@ -115,4 +116,87 @@ func hasGate(a *flow.Alt, m func(*flow.Term) bool, forall bool) *flow.Gate {
 		}
 	}
 	return nil
+}
+
+// orderLemmas adds the integer facts unit propagation cannot see: an atom
+// "c == x" and an atom "c2 < x" (or "x < c2") over the same x and integer
+// literals cannot both hold when the literals contradict them.
+func orderLemmas(a *flow.Alt, extra []*flow.Term) [][]literal {
+	type eqAtom struct {
+		atom string
+		x    string
+		c    int64
+	}
+	type ltAtom struct {
+		atom  string
+		x     string
+		c     int64
+		xLeft bool // x < c (otherwise c < x)
+	}
+	var eqs []eqAtom
+	var lts []ltAtom
+	seen := map[string]bool{}
+	var visit func(t *flow.Term)
+	visit = func(t *flow.Term) {
+		t = flow.StripConv(t)
+		switch {
+		case t.Op == flow.OpUn && t.Name == "!":
+			visit(t.Args[0])
+			return
+		case t.Op == "implies" || (t.Op == flow.OpBin && (t.Name == "&&" || t.Name == "||")):
+			for _, x := range t.Args {
+				visit(x)
+			}
+			return
+		case t.Op != flow.OpBin || len(t.Args) != 2:
+			return
+		}
+		name, x, y := t.Name, t.Args[0], t.Args[1]
+		switch name {
+		case "!=":
+			name = "=="
+		case "<=":
+			name, x, y = "<", y, x // a <= b is !(b < a): the atom is b < a
+		}
+		atom := flow.T(flow.OpBin, name, x, y).String()
+		if seen[atom] {
+			return
+		}
+		seen[atom] = true
+		cx, okx := flow.ConstInt(x)
+		cy, oky := flow.ConstInt(y)
+		switch {
+		case name == "==" && okx && !oky:
+			eqs = append(eqs, eqAtom{atom, flow.StripConv(y).String(), cx})
+		case name == "==" && oky && !okx:
+			eqs = append(eqs, eqAtom{atom, flow.StripConv(x).String(), cy})
+		case name == "<" && okx && !oky:
+			lts = append(lts, ltAtom{atom, flow.StripConv(y).String(), cx, false})
+		case name == "<" && oky && !okx:
+			lts = append(lts, ltAtom{atom, flow.StripConv(x).String(), cy, true})
+		}
+	}
+	for _, g := range a.Gates {
+		if g.Loop == "" && g.Call == nil && g.Pred != nil {
+			visit(g.Pred)
+		}
+	}
+	for _, t := range extra {
+		visit(t)
+	}
+	var out [][]literal
+	for _, e := range eqs {
+		for _, l := range lts {
+			if e.x != l.x {
+				continue
+			}
+			holds := (l.xLeft && e.c < l.c) || (!l.xLeft && l.c < e.c)
+			if holds {
+				out = append(out, []literal{{e.atom, false}, {l.atom, true}}) // x == c implies the order atom
+			} else {
+				out = append(out, []literal{{e.atom, false}, {l.atom, false}}) // they exclude each other
+			}
+		}
+	}
+	return out
 }
